@@ -54,3 +54,27 @@ K("awkward_ListArray_broadcast_tooffsets",
       "ensures_ok": ["forall(q, 0, offsetslength - 1, fromstops[q] - fromstarts[q] == fromoffsets[q + 1] - fromoffsets[q])"],
       "ensures_fail": ["0 <= err_identity and err_identity < offsetslength - 1"]}},
   serves=["C04", "C02", "C12", "C13"])
+
+# C08: copying one input into the merged buffer touches only its own segment [tooffset, tooffset+length):
+# what earlier inputs wrote stays unchanged (frame), for every FROM->TO pair
+for _nm in ["awkward_NumpyArray_fill", "awkward_NumpyArray_fill_frombool", "awkward_NumpyArray_fill_tobool"]:
+    K(_nm,
+      extents={"toptr": "tooffset + length", "fromptr": "length"},
+      loops={"L0": ["0 <= i", "forall(q, 0, tooffset, toptr[q] == old(toptr[q]))"]},
+      ensures_ok=["forall(q, 0, tooffset, toptr[q] == old(toptr[q]))"],
+      serves=["C08", "C12", "C13"])
+
+K("awkward_ListArray_fill",
+  loops={"L0": ["0 <= i", "forall(q, 0, i, tostarts[tostartsoffset + q] == fromstarts[q] + base and tostops[tostopsoffset + q] == fromstops[q] + base)",
+                "forall(q, 0, tostartsoffset, tostarts[q] == old(tostarts[q]))", "forall(q, 0, tostopsoffset, tostops[q] == old(tostops[q]))"]},
+  ensures_ok=["forall(q, 0, length, tostarts[tostartsoffset + q] == fromstarts[q] + base and tostops[tostopsoffset + q] == fromstops[q] + base)",
+              "forall(q, 0, tostartsoffset, tostarts[q] == old(tostarts[q]))", "forall(q, 0, tostopsoffset, tostops[q] == old(tostops[q]))"],
+  serves=["C08", "C12", "C13"])
+
+# missing stays missing, valid positions are rebased by the length of the content placed before
+K("awkward_IndexedArray_fill",
+  loops={"L0": ["0 <= i", "forall(q, 0, i, toindex[toindexoffset + q] == ite(fromindex[q] < 0, -1, fromindex[q] + base))",
+                "forall(q, 0, toindexoffset, toindex[q] == old(toindex[q]))"]},
+  ensures_ok=["forall(q, 0, length, toindex[toindexoffset + q] == ite(fromindex[q] < 0, -1, fromindex[q] + base))",
+              "forall(q, 0, toindexoffset, toindex[q] == old(toindex[q]))"],
+  serves=["C08", "C12", "C13"])
